@@ -14,6 +14,8 @@ import (
 	"os"
 	"path/filepath"
 	"strings"
+	"sync"
+	"sync/atomic"
 
 	"github.com/rogpeppe/go-internal/testscript"
 
@@ -203,11 +205,10 @@ type cobs struct {
 	log     string
 }
 
-var consumerSeq int
+var consumerSeq atomic.Int64
 
 func runConsumer(work string, cs []ccase) []cobs {
-	consumerSeq++
-	dir := filepath.Join(work, fmt.Sprintf("consumer-%d", consumerSeq))
+	dir := filepath.Join(work, fmt.Sprintf("consumer-%d", consumerSeq.Add(1)))
 	os.MkdirAll(dir, 0o777)
 	defer os.RemoveAll(dir)
 	var files []string
@@ -340,7 +341,30 @@ func (rn *runner) consumerViolation(c ccase, name, detail string) {
 
 // consumerBatch runs the cases, applies the oracles and compares the logged diff with the model.
 func (rn *runner) consumerBatch(cs []ccase, tag string) {
-	obs := runConsumer(rn.f.Work, cs)
+	rn.consumerObserved(cs, runConsumer(rn.f.Work, cs), tag)
+}
+
+// consumerBatches runs several batches at the same time, each through its own testscript.RunT
+// on its own goroutine (failing cmp lines then call diff.Diff and log its result concurrently),
+// and evaluates them one after the other.
+func (rn *runner) consumerBatches(batches [][]ccase, tag string) {
+	obs := make([][]cobs, len(batches))
+	var wg sync.WaitGroup
+	for i := range batches {
+		wg.Add(1)
+		go func(i int) {
+			defer wg.Done()
+			obs[i] = runConsumer(rn.f.Work, batches[i])
+		}(i)
+	}
+	wg.Wait()
+	rn.res.Count("consumer:concurrent-batches")
+	for i := range batches {
+		rn.consumerObserved(batches[i], obs[i], tag)
+	}
+}
+
+func (rn *runner) consumerObserved(cs []ccase, obs []cobs, tag string) {
 	var reqs []string
 	var idx []int
 	var impl []string
